@@ -71,6 +71,11 @@ def scenarios(tier, seed):
                 if len(nodes) == 4 and tier == "quick":
                     d["fixed_cpds"] = [nodes[(k + 1) % 4], nodes[(k + 2) % 4]]
                     d["fixed_seed"] = k
+                if op == "query" and k % 4 == 0:
+                    cand = [x for x in nodes if x not in q and x not in ev2]
+                    if cand:
+                        d["virt"] = cand[k % len(cand)]
+                        d["family"] = "bp/bn/query_virtual"
             out.append(d)
     for sname in BN_SHAPES:
         nodes, parents = C.SHAPES[sname]
@@ -144,9 +149,15 @@ def build_model(desc, M):
     from pgmpy.models import FactorGraph, JunctionTree
     kind = desc["kind"]
     if kind == "bn":
-        M.declare(C.sym_names(desc))
+        virt = desc.get("virt")
+        M.declare(C.sym_names(desc) + ([f"lam{i}" for i in range(desc["card"][virt])] if virt else []))
         tabs = C.make_tables(desc, M, positive=True)
         model, nm = C.build_bn(desc, M, tabs)
+        if virt:
+            from fractions import Fraction
+            lam = [M.sym(f"lam{i}", lo=Fraction(1, 10), hi=1) for i in range(desc["card"][virt])]
+            M._lam = lam
+            return model, nm, (lambda a: C.joint_entry(desc, tabs, a) * lam[a[virt]])
         return model, nm, (lambda a: C.joint_entry(desc, tabs, a))
     M.declare(mn_names(desc))
     mn, val, _ = build_mn(desc, M, positive=True)
@@ -266,7 +277,14 @@ def run(desc, M):
     else:
         evidence = {nm[e]: C.sname(desc, e, s) for e, s in desc["ev"].items()} or None
         qvars = [nm[v] for v in desc["q"]]
-        res = bp.query(qvars, evidence=evidence, joint=desc["joint"], show_progress=False)
+        kw = {}
+        virt = desc.get("virt")
+        if virt:
+            from pgmpy.factors.discrete import TabularCPD
+            sn = C.state_names(desc.get("states", "default"), virt, desc["card"][virt])
+            kw["virtual_evidence"] = [TabularCPD(nm[virt], desc["card"][virt], [[M.impl(x)] for x in M._lam],
+                                                 **({"state_names": {nm[virt]: sn}} if sn else {}))]
+        res = bp.query(qvars, evidence=evidence, joint=desc["joint"], show_progress=False, **kw)
         pe = marg(desc, u, dict(desc["ev"]))
         M.mark_pos(pe) if M.symbolic else None
 
@@ -284,7 +302,10 @@ def run(desc, M):
             for v in desc["q"]:
                 if nm[v] in res:
                     chk(res[nm[v]], [v], "query(joint=False)")
-        M.check(sorted(repr(x) for x in bp.model.nodes()) == nodes_before or desc["kind"] == "fg", "engine's model restored after the query")
+        M.check(sorted(repr(x) for x in bp.model.nodes()) == nodes_before or desc["kind"] == "fg" or bool(virt), "engine's model restored after the query")
+        if virt:
+            lam_, u_ = M._lam, u
+            u = lambda a: u_(a) / lam_[a[virt]]  # noqa: the next query carries no soft evidence
         # a second, different query on the same engine still works (engine state restored)
         other = [v for v in desc["nodes"] if v not in desc["q"]][:1] or desc["q"][:1]
         res2 = bp.query([nm[other[0]]], show_progress=False)
